@@ -41,7 +41,6 @@ KNOWN_LOCAL = [
     {'kind': 'html-escaped-enum-value'},
     {'kind': 'html-escaped-default-value'},
     {'kind': 'unescaped-quote-in-literal'},
-    {'kind': 'message-without-fields'},
 ]
 
 # ------------------------------------------------------------------------------------------------ the documented datatypes
@@ -537,7 +536,7 @@ def gen_wf_spec(rng, tier):
     for _ in range(rng.choice([0, 1, 1, 2, 3])):
         rn = names.fresh(rng.choice(['R', 'Leg', 'rec_']))
         fn = FieldNames(rng)
-        fields = [gen_field(rng, fn, ctx_, in_record=True) for _ in range(rng.randint(1, 5))]
+        fields = [gen_field(rng, fn, ctx_, in_record=True) for _ in range(rng.choice([0, 1, 2, 3, 4, 5, 1, 2, 3]))]
         spec['records'].append({'name': rn, 'fields': fields})
         ctx_['records'] = ctx_['records'] + [rn]
     used_ids = set()
@@ -553,7 +552,7 @@ def gen_wf_spec(rng, tier):
         as_char = chr(ind) if (not chr(ind).isdigit() and ind not in (0x0a, 0x0d, 0x09, 0x20) and ind >= 0x20 and ind != 0x7f
                                and not 0x80 <= ind < 0xa0 and rng.random() < 0.5) else None
         fn = FieldNames(rng)
-        fields = [gen_field(rng, fn, ctx_) for _ in range(rng.randint(1, 6))]
+        fields = [gen_field(rng, fn, ctx_) for _ in range(rng.choice([0, 1, 2, 3, 4, 5, 6, 1, 2, 3, 4]))]
         spec['messages'].append({'name': mname, 'msgid': as_char if as_char is not None else str(ind),
                                  'group': rng.choice([None, None, 'g', '2', 'grp-1']), 'direction': direction, 'fields': fields})
     return impl, spec
@@ -590,8 +589,6 @@ def gen_known_spec(rng, tier, kind):
             m['fields'].append(blank_field('quof', type='enum:QuoE'))
         else:
             m['fields'].append(blank_field('quod', type=rng.choice(CHAR_IDS), default=rng.choice(UNQUOTABLE)))
-    elif kind == 'message-without-fields':
-        m['fields'] = []
     return impl, spec
 
 
@@ -1154,7 +1151,7 @@ def judge(ctx, case, res, model):
         return False
     for (msg, plain, tr, app_decode, tail), got in zip(case.values, res['values']):
         rd = lambda **kw: case.replay_dict(message=msg['name'], values=tr, **kw)
-        kind = 'message-without-fields' if not msg['fields'] and got['enc'][0] == 'err' and got['enc'][1] == 'index' else None
+        kind = None
         expected = ref_encode_message(rich, msg, plain)
         full = full_values(rich, msg, plain)
         if got['enc'][0] != 'ok':
